@@ -54,7 +54,7 @@ class GhostMatchingParam:
     def matches(self, decoded_vals):
         key = (self.name, decoded_vals["answer_to"])
         if key not in self.facts:
-            self.facts[key] = H.bool(f"matches_{self.name}")
+            self.facts[key] = H.bool(f"matches_{self.name}_{key[1].hex()}")
         return self.facts[key]
 
 
@@ -141,7 +141,7 @@ def matcher_selects_first_match(shape, sharing):
                 for mp in pat.params:
                     key = (mp.name, mp.service.req)
                     if key not in facts:
-                        facts[key] = H.bool(f"matches_{mp.name}")
+                        facts[key] = H.bool(f"matches_{mp.name}_{key[1].hex()}")
                     if not facts[key]:
                         ok = False
                         break
